@@ -39,14 +39,15 @@ const (
 )
 
 const (
-	c13BehAnswer      = iota // the remote answers the identify request at once with an honest message
-	c13BehStall              // the remote accepts the stream and never answers
-	c13BehRefuse             // the remote refuses the stream
-	c13BehClosedFirst        // the connection is already closed when Connected is delivered
-	c13BehDiscFirst          // ... and its Disconnected was even delivered before its Connected (out-of-order notifications)
+	c13BehAnswer           = iota // the remote answers the identify request at once with an honest message
+	c13BehStall                   // the remote accepts the stream and never answers
+	c13BehRefuse                  // the remote refuses the stream
+	c13BehClosedFirst             // the connection is already closed when Connected is delivered
+	c13BehDiscFirst               // ... and its Disconnected was even delivered before its Connected (out-of-order notifications)
+	c13BehStallNegotiation        // the remote accepts the stream and does not even answer the protocol negotiation
 )
 
-var c13BehNames = []string{"answers", "stalls", "refuses-stream", "closed-before-Connected", "Disconnected-before-Connected"}
+var c13BehNames = []string{"answers", "stalls", "refuses-stream", "closed-before-Connected", "Disconnected-before-Connected", "stalls-in-negotiation"}
 
 type c13Ev struct{ Kind, Slot, Beh int }
 
@@ -167,9 +168,9 @@ func TestVerifC13Life(t *testing.T) {
 	w := c13GetWorld(t)
 	r := vrep.New("C13", "lifetime")
 	defer r.Flush()
-	cf := c13LCfg{depth: 6, maxMsgs: 2, behs: []int{c13BehAnswer, c13BehStall, c13BehRefuse}}
+	cf := c13LCfg{depth: 6, maxMsgs: 2, behs: []int{c13BehAnswer, c13BehStall, c13BehRefuse, c13BehStallNegotiation}}
 	if vrep.Thorough() {
-		cf = c13LCfg{depth: 8, maxMsgs: 2, behs: []int{c13BehAnswer, c13BehStall, c13BehRefuse, c13BehClosedFirst, c13BehDiscFirst}, tick: true}
+		cf = c13LCfg{depth: 8, maxMsgs: 2, behs: []int{c13BehAnswer, c13BehStall, c13BehRefuse, c13BehClosedFirst, c13BehDiscFirst, c13BehStallNegotiation}, tick: true}
 	}
 	hs := c13Histories(cf)
 	const rt = 0 // ed25519 remote (keys are the message product's business; this keeps a history cheap)
@@ -255,9 +256,14 @@ func TestVerifC13Life(t *testing.T) {
 						waits[e.Slot] = f.ids.IdentifyWait(c)
 						synctest.Wait()
 						consumed(stored, "automatic identify")
-					case c13BehStall:
+					case c13BehStall, c13BehStallNegotiation:
+						stallAt := e.Beh
 						c.script = func(c *c13Conn) (*c13Strm, error) {
-							s := c.newStrm(c13MsPrefix(ID))
+							var pre []byte
+							if stallAt == c13BehStall {
+								pre = c13MsPrefix(ID)
+							}
+							s := c.newStrm(pre)
 							s.tail = c13TailStall
 							return s, nil
 						}
